@@ -43,7 +43,7 @@ inductive Lt where
 inductive StdCtor where
   | phantomData | cell | unsafeCell | refCell
   | rc | rcWeak | arc | arcWeak
-  | box | vec | option | result | nonNull | manuallyDrop
+  | box | vec | option | result | nonNull | manuallyDrop | maybeUninit
   deriving DecidableEq, Repr, Inhabited
 
 /-- Types. `adt` is a nominal type looked up in the table (an ADT missing from the table is an
@@ -175,6 +175,21 @@ structure CallSite where
   isCall : Bool
   deriving Repr, Inhabited
 
+/-- A safe method of a public ADT (inherent `pub`, or of a trait impl) through which client code
+hands in a value whose type mentions a type parameter.  `selfArgs` are the type arguments of the
+impl's self type (in the order of the ADT's type parameters); `params` the types handed in (parameter
+types, outputs of callback parameters, item types of iterator parameters); `bounded` the impl /
+method type parameters that carry a `Collect` or `'static` bound *at this method*. -/
+structure MethodSig where
+  adt : String
+  file : String
+  method : String
+  trait : String := ""
+  selfArgs : List Ty
+  params : List Ty
+  bounded : List String
+  deriving Repr, Inhabited
+
 structure AutoImpl where
   trait : String
   negative : Bool
@@ -190,6 +205,7 @@ structure Table where
   collectImpls : List CollectImpl
   transmutes : List Transmute
   callSites : List CallSite := []
+  methods : List MethodSig := []
   autoImpls : List AutoImpl
   /-- items the translator could not classify (fail closed: must be empty) -/
   unclassified : List String
@@ -494,7 +510,7 @@ def StdCtor.auto (c : StdCtor) (a : Auto) : Auto :=
   | .cell | .unsafeCell | .refCell => ⟨a.send, false⟩
   | .rc | .rcWeak | .nonNull => .none
   | .arc | .arcWeak => ⟨a.send && a.sync, a.send && a.sync⟩
-  | .box | .vec | .option | .result | .manuallyDrop => a
+  | .box | .vec | .option | .result | .manuallyDrop | .maybeUninit => a
 
 /-- `Send`/`Sync` of a named ADT applied to arguments with the given answers. -/
 abbrev AutoOracle := String → List Auto → Auto
@@ -765,6 +781,141 @@ def Table.blameOf (tbl : Table) (t : Transmute) : List String :=
 /-- The re-branding site is covered (see above); transmutes that introduce no lifetime, or whose
 result only exists as a returned raw pointer, need no cover. -/
 def Table.transmuteOk (tbl : Table) (t : Transmute) : Bool := (tbl.blameOf t).isEmpty
+
+/-! ## Builder rule (defect D4): how a type holds a parameter, and who may store into it
+
+`GcBuilder<'gc, T>` held its `T` only behind a `NonNull<T>` – rustc inferred covariance – while the
+`T: Collect` bound was checked when the builder was created and the safe finishing methods have no
+bound of their own: a `GcBuilder<'gc, &'static U>` coerced to `GcBuilder<'gc, &'gc U>` stores an
+untraced `&'gc U` in the arena.  The rows the rule ranges over are *derived* from the table:
+
+* `holdKinds` – the ways a type holds a value of its parameter `P`, following nested ADTs: owned by
+  value, behind a reference, behind a raw pointer / `NonNull` / `Weak`, in a `MaybeUninit`, only in a
+  `PhantomData` (or a projection), in a `fn` pointer;
+* `storeMethods` – safe methods that accept a value of `P` (by value or by reference, directly, as
+  the result of a callback or the item of an iterator; *not* inside another handle such as `Self`)
+  while `P` carries no `Collect` / `'static` bound at that method.
+
+A type that holds `P` only indirectly (raw pointer or `MaybeUninit`, never by value) and has a store
+method must be invariant in `P` (`builderOk`). -/
+
+inductive Hold where
+  | owned | ref | raw | uninit | phantom | fnPtr
+  deriving DecidableEq, Repr, Inhabited
+
+/-- How an outer container's way of holding composes with an inner one: ownership is transparent,
+a reference is transparent for everything but a plain value (`&Gc<T>` holds `T` behind a raw
+pointer, `&T` behind a reference), anything else hides what is below it. -/
+def Hold.compose (outer inner : Hold) : Hold :=
+  if outer == .owned then inner
+  else if outer == .ref && inner != .owned then inner
+  else outer
+
+def StdCtor.hold : StdCtor → Hold
+  | .phantomData => .phantom
+  | .nonNull | .rcWeak | .arcWeak => .raw
+  | .maybeUninit => .uninit
+  | _ => .owned
+
+/-- Ways ADT `n` holds its `i`-th type parameter. -/
+abbrev HoldOracle := String → Nat → List Hold
+
+/-- Every inner way of holding, seen through every outer one. -/
+def holdUnder (outer inner : List Hold) : List Hold :=
+  outer.flatMap (fun k => inner.map (fun h => k.compose h))
+
+mutual
+/-- Ways the type holds a value of type parameter `p` (relative to owning the type itself). -/
+def holdsTy (look : HoldOracle) (p : String) : Ty → List Hold
+  | .prim _ => []
+  | .param n => if n == p then [.owned] else []
+  | .ref _ t => holdUnder [.ref] (holdsTy look p t)
+  | .refMut _ t => holdUnder [.ref] (holdsTy look p t)
+  | .rawConst t => holdUnder [.raw] (holdsTy look p t)
+  | .rawMut t => holdUnder [.raw] (holdsTy look p t)
+  | .std c ts => holdUnder [c.hold] (holdsTys look p ts)
+  | .tuple ts => holdsTys look p ts
+  | .slice t => holdsTy look p t
+  | .proj s _ _ ts _ => holdUnder [.phantom] (holdsTy look p s ++ holdsTys look p ts)
+  | .fnPtr _ args ret => holdUnder [.fnPtr] (holdsTys look p args ++ holdsTy look p ret)
+  | .adt n _ ts => holdsAdtArgs look p n 0 ts
+  | .unclassified _ => []
+def holdsTys (look : HoldOracle) (p : String) : List Ty → List Hold
+  | [] => []
+  | t :: ts => holdsTy look p t ++ holdsTys look p ts
+def holdsAdtArgs (look : HoldOracle) (p : String) (n : String) : Nat → List Ty → List Hold
+  | _, [] => []
+  | i, t :: ts => holdUnder (look n i) (holdsTy look p t) ++ holdsAdtArgs look p n (i + 1) ts
+end
+
+def fieldsHold (look : HoldOracle) (p : String) : List Field → List Hold
+  | [] => []
+  | f :: fs => holdsTy look p f.ty ++ fieldsHold look p fs
+
+/-- Level 0 and ADTs outside the table (external crates) own their arguments. -/
+def adtHoldOracle (tbl : Table) : Nat → HoldOracle
+  | 0 => fun _ _ => [.owned]
+  | fuel + 1 => fun n i =>
+      match tbl.find n with
+      | none => [.owned]
+      | some d =>
+        match d.tys[i]? with
+        | none => []
+        | some p => fieldsHold (adtHoldOracle tbl fuel) p d.fields
+
+def Table.holdKinds (tbl : Table) (n p : String) : List Hold :=
+  match tbl.find n with
+  | none => []
+  | some d => fieldsHold (adtHoldOracle tbl fuel) p d.fields
+
+/-- Holds `p` behind a raw pointer or in a `MaybeUninit`, and nowhere by value. -/
+def Table.indirectOnly (tbl : Table) (n p : String) : Bool :=
+  let ks := tbl.holdKinds n p
+  (ks.contains .raw || ks.contains .uninit) && !ks.contains .owned
+
+/-- Does the method hand in a value of impl parameter `x` (by value or behind a reference, not
+inside another handle)? -/
+def MethodSig.supplies (tbl : Table) (m : MethodSig) (x : String) : Bool :=
+  m.params.any (fun t =>
+    let ks := holdsTy (adtHoldOracle tbl fuel) x t
+    ks.contains .owned || ks.contains .ref)
+
+/-- The method stores into the ADT's `i`-th parameter without a bound: some impl parameter `x`
+occurring in the self type's `i`-th argument is handed in and is not `Collect`/`'static`-bounded. -/
+def MethodSig.storesUnbounded (tbl : Table) (m : MethodSig) (i : Nat) : Bool :=
+  match m.selfArgs[i]? with
+  | none => false
+  | some a => a.tyParams.any (fun x => m.supplies tbl x && !m.bounded.contains x)
+
+def Table.storeMethods (tbl : Table) (n : String) (i : Nat) : List MethodSig :=
+  tbl.methods.filter (fun m => m.adt == n && m.storesUnbounded tbl i)
+
+def enumFrom {α : Type} : Nat → List α → List (Nat × α)
+  | _, [] => []
+  | i, x :: xs => (i, x) :: enumFrom (i + 1) xs
+
+/-- The rows of the builder rule, derived from the table: every (public ADT, type parameter) that
+is held only indirectly and has an unbounded safe store method. -/
+def Table.builderRows (tbl : Table) : List (String × String) :=
+  (tbl.adts.filter (fun d => d.vis == .pub)).flatMap (fun d =>
+    ((enumFrom 0 d.tys).filter (fun ip =>
+        tbl.indirectOnly d.name ip.2 && !(tbl.storeMethods d.name ip.1).isEmpty)).map
+      (fun ip => (d.name, ip.2)))
+
+/-- The store methods behind a row (for explanations). -/
+def Table.builderRowMethods (tbl : Table) (r : String × String) : List String :=
+  match tbl.find r.1 with
+  | none => []
+  | some d =>
+    ((enumFrom 0 d.tys).filter (fun (ip : Nat × String) => ip.2 == r.2)).flatMap
+      (fun (ip : Nat × String) => (tbl.storeMethods r.1 ip.1).map
+        (fun (m : MethodSig) => (if m.trait == "" then "" else m.trait ++ "::") ++ m.method ++ " (" ++ m.file ++ ")"))
+
+def Table.builderOk (tbl : Table) (r : String × String) : Bool :=
+  tbl.variance r.1 (.ty r.2) == .inv
+
+def Table.violBuilders (tbl : Table) : List String :=
+  (tbl.builderRows.filter (fun r => !tbl.builderOk r)).map (fun r => r.1 ++ "<" ++ r.2 ++ ">")
 
 /-! ## Whole-table checks (the hypotheses of the table theorems in `Props/C12.lean`) -/
 
